@@ -246,6 +246,7 @@ def run(P, R, tier):
     C08.restore_rules(P, R, RULE="C13.restore")
     check_store(P, R, rec)
     domain_rule(P, R)
+    keyeddefault_rule(P, R)
 
 
 # ------------------------------------------------------------------------------------------------------------
@@ -1304,3 +1305,39 @@ def parse_f90(path, R):
         R.anchor_missing("C13.matrix", "only %d BIND(C) blocks parsed from the Fortran module (confirmed: 71)" % len(binds))
         return None
     return binds, params, wrappers
+
+
+def keyeddefault_rule(P, R):
+    """"Defaults are the documented ones and embed the id in file names": a file name kept per user number (tables/c13_store.json: name +
+    keyed) has the documented default `selected_<n>.<id>.out` for every n, not only for the block the constructor prepares.  Either the
+    getter falls back to the id-derived helper (sel_file_name) when the map has no entry, or the function that selects the key
+    (SetCurrentSelectedOutputUserNumber) enters the default.  Without one of the two, GetSelectedOutputFileName() of a fresh instance
+    returns "" for n != 1."""
+    RULE = "C13.keyeddefault"
+    R.rule(RULE, "a per-user-number file name has its documented id-derived default for every user number (getter fallback or default entered when the number is selected)", minimum=1)
+    tab = load_table("c13_store.json")
+    rows = [r for r in (tab["pairs"] if "pairs" in tab else tab.get("rows", tab)) if isinstance(r, dict) and r.get("name") and r.get("keyed")]
+    if not rows:
+        R.anchor_missing(RULE, "tables/c13_store.json lists no keyed file-name store")
+        return
+    for r in rows:
+        fld = "IPhreeqc::" + r["field"]
+        getter = P.one("IPhreeqc::" + r["getter"])
+        selector = P.one("IPhreeqc::SetCurrentSelectedOutputUserNumber")
+
+        def defaults_in(fn):
+            if any(T.callee_name(c) == "sel_file_name" for c in T.calls(fn["body"])):
+                for t, how, line, w in T.writes(fn["body"]):
+                    if any(y[0] == "Member" and y[2] == fld for y in T.walk(t)) and any(T.callee_name(c) == "sel_file_name" for c in T.calls(w)):
+                        return line
+                return -1       # helper used (e.g. returned directly)
+            return None
+        g_, s_ = defaults_in(getter), defaults_in(selector)
+        inst = r["getter"]
+        if g_ is not None:
+            R.ok(RULE, inst, "%s falls back to sel_file_name" % r["getter"])
+        elif s_ is not None and s_ > 0:
+            R.ok(RULE, inst, "SetCurrentSelectedOutputUserNumber enters sel_file_name(n) for a number without a name (line %d)" % s_)
+        else:
+            R.violation(RULE, inst, "%s returns what %s holds for the current user number and nothing provides the documented default selected_<n>.<id>.out for a number "
+                        "other than the one the constructor prepares: a fresh instance reports \"\" for block 2" % (r["getter"], r["field"]), file=getter["file"], line=getter["line"], function=getter["q"])
